@@ -23,7 +23,7 @@ func main() {
 	case "C04":
 		runC04(ev.Parse("model_checking"))
 	case "C12":
-		if os.Getenv("VERIF_PHASE") == "conc" {
+		if ph := os.Getenv("VERIF_PHASE"); ph == "conc" || ph == "race" {
 			runC12Conc(ev.Parse("model_checking"))
 		}
 		runC12(ev.Parse("model_checking"))
